@@ -87,6 +87,36 @@ def main():
                         break
                     ivs.append([dt_json(a), dt_json(b), str(k), list(c)])
                 rec["intervals"] = ivs
+                # Session.tla on the Python side: the object normalize() returns keeps the context; an iterator consumed between
+                # other calls (on the object, on its normal form, on a second iterator of the same object) gives the stream's elements
+                nn = o.normalize()
+                nrec = {"state": str(nn.state(t)), "next_change": dt_json(nn.next_change(t)), "intervals": []}
+                it1 = o.intervals(t)
+                it2 = nn.intervals(t)
+                it3 = o.intervals(t)
+                inter = []
+                for step in range(4):
+                    try:
+                        a, b, k, c = next(it1)
+                        inter.append([dt_json(a), dt_json(b), str(k), list(c)])
+                    except StopIteration:
+                        break
+                    o.is_open(t)
+                    if step < 3:
+                        try:
+                            a, b, k, c = next(it2)
+                            nrec["intervals"].append([dt_json(a), dt_json(b), str(k), list(c)])
+                        except StopIteration:
+                            pass
+                    try:
+                        next(it3)
+                        next(it3)
+                    except StopIteration:
+                        pass
+                    if step == 1:
+                        del nn
+                rec["norm"] = nrec
+                rec["interleaved"] = inter
                 if wall.year == 9999 and wall.month == 12 and wall.day > 28:
                     rec["intervals_bounded"] = []      # the end of the window cannot be written as a Python datetime
                 else:
